@@ -280,6 +280,7 @@ pub fn worker(ctx: &mut Ctx) {
         take_cache();
         let mut cache_tot = [0u64; 4];
         let mut failed = false;
+        let mut prev: Option<(String, bool)> = None;
         for step in 0..steps {
             if r.chance(1, 7) {
                 // toggle / set / unset one rule (the same ones come back often)
@@ -305,12 +306,20 @@ pub fn worker(ctx: &mut Ctx) {
                 trace.push(json!({"op": "set", "rule": k, "value": v}));
                 continue;
             }
-            let text = make_doc(&mut r, &pool);
-            let md = match langs {
-                "plain" => false,
-                "md" => true,
-                _ => r.chance(1, 2),
+            // now and then the very same text again, in the other language (one instance serves both)
+            let (text, md) = match (&prev, langs == "both" && r.chance(1, 5)) {
+                (Some((t, m)), true) => (t.clone(), !*m),
+                _ => {
+                    let t = make_doc(&mut r, &pool);
+                    let md = match langs {
+                        "plain" => false,
+                        "md" => true,
+                        _ => r.chance(1, 2),
+                    };
+                    (t, md)
+                }
             };
+            prev = Some((text.clone(), md));
             ctx.report.evaluations += 1;
             let p: Box<dyn Parser> = if md { Box::new(Markdown::default()) } else { Box::new(PlainEnglish) };
             let res = guarded(|| {
